@@ -1273,6 +1273,48 @@ static std::string defaults(Toks& t) {
     return o.str();
 }
 
+// ---------------------------------------------------------------- round 4 (b): getLikelihood() queried after the measurement model changed its size
+// b_likq kind reduced sub m1 m2 how K : kind 0 UKF generic, 1 UKF additive, 2 SUKF(sub, reduced), 3 KF.  A successful correct() with a measurement of
+//   m1 rows; getLikelihood(); the (time-varying) model now measures m2 rows (noise covariance follows: full m2 x m2, reduced stays sub x sub); then
+//   how 0: getLikelihood() at once; 1: skip(true), correct() (members untouched), getLikelihood(); 2: correct() (not skipped), getLikelihood()
+struct XLinTV : public LinearMeasurementModel {      // a linear model whose matrices can be replaced between calls
+    MatrixXd H, R; long ysize = 0;
+    bool freeze(const Data&) override { return true; }
+    std::pair<bool, Data> measure(const Data&) const override { MatrixXd y = fillm(ysize, 1, 0.4); return std::make_pair(true, Data(std::move(y))); }
+    MatrixXd getMeasurementMatrix() const override { return H; }
+    std::pair<bool, MatrixXd> getNoiseCovarianceMatrix() const override { return std::make_pair(true, R); }
+    VectorDescription getInputDescription() const override { return VectorDescription(H.cols(), 0, R.rows()); }
+    VectorDescription getMeasurementDescription() const override { return VectorDescription(H.rows()); }
+};
+static std::string likq(Toks& t) {
+    long kind = t.nat(); bool reduced = t.flag(); long sub = t.nat(), m1 = t.nat(), m2 = t.nat(), how = t.nat(), K = t.nat(); t.done();
+    const long n = 3;
+    XMeas* mp = nullptr; XLinTV* lp = nullptr;
+    std::unique_ptr<GaussianCorrection> c;
+    auto rrOf = [&](long m) { return (kind == 2 && reduced) ? sub : m; };
+    auto setSize = [&](long m) {
+        if (mp) { mp->in_ = vdesc(n, 0, rrOf(m), false); mp->out_ = vdesc(m, 0, 0, false); mp->prows = m; mp->irows = m; mp->ysize = m; mp->R = spd(rrOf(m), 0.3); }
+        else { lp->H = fillm(m, n, 1.0); lp->R = spd(m, 0.3); lp->ysize = m; }
+    };
+    if (kind == 3) { lp = new XLinTV(); setSize(m1); c.reset(new KFCorrection(std::unique_ptr<LinearMeasurementModel>(lp))); }
+    else {
+        std::unique_ptr<XMeas> m(new XMeas()); mp = m.get(); setSize(m1);
+        // generic constructor: the noise size of a time-varying model enters the weights, which are re-computed at each call when asked to
+        if (kind == 0) c.reset(new UKFCorrection(std::unique_ptr<MeasurementModel>(std::move(m)), 1.0, 2.0, 0.0, /* update_weights_online */ true));
+        else if (kind == 1) c.reset(new UKFCorrection(std::unique_ptr<AdditiveMeasurementModel>(std::move(m)), 1.0, 2.0, 0.0));
+        else c.reset(new SUKFCorrection(std::unique_ptr<AdditiveMeasurementModel>(std::move(m)), 1.0, 2.0, 0.0, sub, reduced));
+    }
+    Out o; o.s("ok");
+    auto query = [&]() { std::pair<bool, VectorXd> l = c->getLikelihood(); o.s(std::string(l.first ? "1" : "0") + ":" + std::to_string(l.second.size())); };
+    { GaussianMixture pred = mkGM(K, n, 0, false, 0), corr(K, n); c->correct(pred, corr); }
+    query();
+    setSize(m2);
+    if (how == 1) { c->skip(true); GaussianMixture pred = mkGM(K, n, 0, false, 0), corr(K, n); c->correct(pred, corr); }
+    else if (how == 2) { GaussianMixture pred = mkGM(K, n, 0, false, 0), corr(K, n); c->correct(pred, corr); }
+    query();
+    return o.str();
+}
+
 int main() {
     return vh::run([](const std::string& op, Toks& t, std::string& out) {
         if (op == "b_wna_noise") out = wna_noise(t);
@@ -1307,6 +1349,7 @@ int main() {
         else if (op == "b_gfilter") out = gfilter(t);
         else if (op == "b_pfilter") out = pfilter(t);
         else if (op == "b_defaults") out = defaults(t);
+        else if (op == "b_likq") out = likq(t);
         else if (op == "b_linprop") out = linprop(t);
         else if (op == "b_kfp") out = kfp(t);
         else if (op == "b_ukfp") out = ukfp(t);
